@@ -59,6 +59,18 @@ Proof. vm_compute. reflexivity. Qed.
 Lemma conversions_i32 : conv_ok Gen_C02_i32.catalogue "i32" I32 = true.
 Proof. vm_compute. reflexivity. Qed.
 
+(* gtx/matrix_operation diagonalCxR(v): v on the diagonal, zero elsewhere; gtx/matrix_major_storage: rowMajorN places its arguments as rows
+   (rowMajorN(m) is the transpose), colMajorN as columns (colMajorN(m) is a copy) *)
+Definition grid (C Rn : Z) (f : Z -> Z -> expr) : list expr := flat_map (fun c => map (fun r => f c r) (zseq Rn)) (zseq C).
+Definition gtx_ok cat ty k : bool :=
+  forallb (fun s => let '(C, Rn) := s in chk_syn cat (name "gdiag" [C; Rn] ty) (grid C Rn (fun c r => if c =? r then V k 0 c else zero_of k))) shapes9 &&
+  forallb (fun N => chk_syn cat (name "rowmajorv" [N] ty) (grid N N (fun c r => V k r c)) && chk_syn cat (name "colmajorv" [N] ty) (grid N N (fun c r => V k c r)) &&
+                    chk_syn cat (name "rowmajorm" [N] ty) (grid N N (fun c r => V k 0 (r * N + c))) && chk_syn cat (name "colmajorm" [N] ty) (grid N N (fun c r => V k 0 (c * N + r)))) [2; 3; 4].
+Lemma gtx_f32 : gtx_ok Gen_C02_f32.catalogue "f32" F32 = true.
+Proof. vm_compute. reflexivity. Qed.
+Lemma gtx_i32 : gtx_ok Gen_C02_i32.catalogue "i32" I32 = true.
+Proof. vm_compute. reflexivity. Qed.
+
 (* row / column accessors for every valid index *)
 Definition access_ok cat ty k : bool :=
   forallb (fun s => let '(C, Rn) := s in
